@@ -934,6 +934,45 @@ class Model:
         def want(h: FuncInfo) -> bool:
             return h.qname in new_helpers
 
+        # `x = helper(..) if c else y` hides the helper call in a conditional value: written as the `if` statement it abbreviates, so that
+        # the call stands at statement level where the inliner can expand it
+        helper_names = {h.name for h in new_helpers.values()}
+
+        def calls_helper(e: ast.AST) -> bool:
+            for n in ast.walk(e):
+                if isinstance(n, ast.Call):
+                    nm = n.func.attr if isinstance(n.func, ast.Attribute) else n.func.id if isinstance(n.func, ast.Name) else None
+                    if nm in helper_names:
+                        return True
+            return False
+
+        class SplitIfExp(ast.NodeTransformer):
+            def visit_FunctionDef(self, n):
+                return self.generic_visit(n)
+
+            def _split(self, st, value, mk):
+                if isinstance(value, ast.IfExp) and (calls_helper(value.body) or calls_helper(value.orelse)) and not calls_helper(value.test):
+                    new_if = ast.If(test=value.test, body=[mk(value.body)], orelse=[mk(value.orelse)])
+                    ast.copy_location(new_if, st)
+                    ast.fix_missing_locations(new_if)
+                    return new_if
+                return st
+
+            def visit_Assign(self, st: ast.Assign):
+                import copy as _c
+                if len(st.targets) == 1 and isinstance(st.targets[0], (ast.Name, ast.Attribute)):
+                    return self._split(st, st.value, lambda v: ast.Assign(targets=[_c.deepcopy(st.targets[0])], value=v, lineno=st.lineno))
+                return st
+
+            def visit_Return(self, st: ast.Return):
+                return self._split(st, st.value, lambda v: ast.Return(value=v))
+        for f in self.functions.values():
+            if any(isinstance(n, ast.IfExp) for n in ast.walk(f.node)) and calls_helper(f.node):
+                import copy as _c7
+                node7 = SplitIfExp().visit(_c7.deepcopy(f.node))
+                if ast.dump(node7) != ast.dump(f.node):
+                    f.__dict__.setdefault("raw_node", f.node)
+                    f.node = node7
         views: dict[str, FuncInfo] = {}
         for q, f in list(self.functions.items()):
             inl = Inliner(self, want)
